@@ -803,14 +803,10 @@ Proof.
   apply orb_false_iff in Eq as [Eq1 Eq2].
   destruct (N.eqb_spec ch 37) as [->|Ep].
   { destruct r1 as [|y r1'].
-    - pose proof (until_any_strict [39; 34]%N 37%N [] eq_refl) as Hl.
-      destruct (until_any [39; 34]%N false [37%N]) as [content r2]. cbn [snd] in Hl. apply IH. simpl in Hl. lia.
-    - assert (Hgo : match (let '(content, r2) := until_any [39; 34]%N false (37%N :: y :: r1') in
-                           detailed_go fuel r2 (n + N.of_nat (length content)) (content :: out))
+    - apply IH. cbn [length] in *. lia.
+    - assert (Hgo : match detailed_go fuel (y :: r1') (n + 1)%N ([37%N] :: out)
                     with Ok _ => True | Err k => k = TemplateSyntaxError | OutOfFuel => False end).
-      { pose proof (until_any_strict [39; 34]%N 37%N (y :: r1') eq_refl) as Hl.
-        destruct (until_any [39; 34]%N false (37%N :: y :: r1')) as [content r2]. cbn [snd] in Hl.
-        apply IH. simpl in Hl, Hf. lia. }
+      { apply IH. cbn [length] in *. lia. }
       destruct y as [|p]; [exact Hgo|].
       repeat (destruct p as [p|p|]; try exact Hgo). exact I. }
   assert (Hs : existsb (N.eqb ch) [39; 34; 37]%N = false).
